@@ -144,9 +144,31 @@ class C02Update:
         self.deadband = 0
         self.overflow = 0
 
+    def on_step(self, sim, cur):
+        """The answered update of step n is the answer of its last accepted call: the psi the
+        step returns is that call's psi' (pinned sites aside) and the dt the step reports is the
+        dt that call was made with - otherwise psi' does not satisfy the update for the reported dt."""
+        last = getattr(sim, "_c02_last", None)
+        if last is None or last["step"] != cur["step"] or last["stage"] != cur["stage"]:
+            return []
+        V = []
+        where = dict(step=cur["step"], stage=cur["stage"], gamma=float(sim.h.solver.gamma), dt=cur["dt"])
+        if cur["dt"] != last["dt"]:
+            V.append(Violation("step-dt-mismatch", f"step {cur['step']} reports dt={cur['dt']!r} but its answer was computed with dt={last['dt']!r}", **where))
+        c = get_ctx(sim)
+        out = np.asarray(cur["out"]["psi"])
+        mask = np.ones(len(out), dtype=bool)
+        if c.terminal_psi is not None and len(c.pinned):
+            mask[c.pinned] = False
+        if not np.array_equal(out[mask], last["psi"][mask], equal_nan=True):
+            V.append(Violation("step-psi-mismatch", f"step {cur['step']}: the psi returned by the step is not the psi' of its accepted update (max |diff| {float(np.max(np.abs(out[mask] - last['psi'][mask]))):.3g})", **where))
+        return V
+
     def on_attempt(self, sim, rec):
         if rec["injected"]:
             return []
+        if rec["result"] is not None:
+            sim._c02_last = {"step": rec["step"], "stage": rec["stage"], "dt": rec["dt"], "psi": np.array(rec["result"][0], copy=True)}
         kw = rec["kw"]
         psi = np.asarray(kw["psi"])
         a2 = np.asarray(kw["abs_sq_psi"], dtype=float)
